@@ -1062,6 +1062,7 @@ fn build0<'a, I: InK<'a>, C: Cfg<'a, I>>(g: &G, pr: Probes) -> BP<'a, I, C> {
         MapZ(a) => build::<I, C>(a, pr).map(|_| Val::Z).fin(),
         SliceWith(a) => I::slice_with::<C>(build::<I, C>(a, pr)),
         SpanWith(a) => build::<I, C>(a, pr).map_with(|_, e| { let (a, b) = e.span().pair(); Val::Sp(a, b) }).fin(),
+        TryMapSpan(a) => build::<I, C>(a, pr).try_map(|_, span: I::Span| { let (a, b) = span.pair(); Ok(Val::Sp(a, b)) }).fin(),
         Lazy(a) => build::<I, C>(a, pr).lazy().fin(),
         Rec(body, declare) => {
             let with_handle = |h: &BP<'a, I, C>| -> BP<'a, I, C> {
